@@ -43,6 +43,17 @@ from crosshair.statespace import (
 from crosshair.tracers import COMPOSITE_TRACER, NoTracing, ResumedTracing
 from crosshair.util import IgnoreAttempt, NotDeterministic, UnexploredPath
 
+# CrossHair patches weakref.ref.__call__ to run a full gc.collect() on EVERY dereference (to make dead
+# referents deterministic).  anyio dereferences weak references constantly (_task_states, all_tasks()), which
+# made that the dominant cost of a path.  We drop the patch and run a full collection every 25 paths instead
+# (asyncio.all_tasks() filters by loop and _task_states is keyed by identity, so garbage of earlier paths is inert).
+import gc as _gc
+import weakref as _weakref
+
+from crosshair.core import _PATCH_REGISTRATIONS as _PATCHES
+
+_PATCHES.pop(_weakref.ref.__call__, None)
+
 # --------------------------------------------------------------------------------------
 # solver accounting
 # --------------------------------------------------------------------------------------
@@ -365,6 +376,8 @@ def explore(
             search_root=root,
         )
         del _CONTROL[:]
+        if i % 25 == 0:
+            _gc.collect()  # keep dead tasks / loops of earlier paths from piling up in weak containers
         model: dict | None = None
         status = None
         viol: tuple[str, Any] | None = None
